@@ -344,3 +344,35 @@ func magnitudeLensShort(deep bool) []int {
 	}
 	return []int{4095, 4096, 4097, 65535, 65536, 65537, 131072, 196608, 262144}
 }
+
+// ---- twins -------------------------------------------------------------------------------------------
+// genTwins makes the table generators list some feature twice, verbatim (same key, qualifiers, label, location):
+// an operation must keep both entries. multOf tells the checks how often a label is expected.
+var genTwins bool
+
+func addTwins(t *rapid.T, ff []Feat, name string) []Feat {
+	if !genTwins || len(ff) == 0 {
+		return ff
+	}
+	k := rapid.IntRange(0, len(ff)-1).Draw(t, name+"-twin")
+	at := rapid.SampledFrom([]int{k + 1, k + 1, len(ff), 0}).Draw(t, name+"-at")
+	out := append([]Feat{}, ff[:at]...)
+	out = append(out, ff[k])
+	return append(out, ff[at:]...)
+}
+
+func multOf(ff []Feat, f Feat) int {
+	n := 0
+	for _, g := range ff {
+		if g.label() == f.label() {
+			n++
+		}
+	}
+	return n
+}
+
+func rapidTwinsPart[C any](t *testing.T, p *Prop[C], st *Stats, n int, gen func(*rapid.T) C) {
+	genTwins = true
+	defer func() { genTwins = false }()
+	rapidPart(t, p, st, "rapid-twins", n, gen)
+}
